@@ -288,6 +288,11 @@ func (s *Session) Read(b []byte) (n int, err error) {
 			}
 			select {
 			case <-s.closedChan:
+				if s.recvQueue.Len() > 0 {
+					// Segments queued before the session was closed are
+					// still readable. Both channels may be ready at once.
+					continue
+				}
 				if s.recvTruncated.Load() {
 					return 0, io.ErrUnexpectedEOF
 				}
